@@ -748,11 +748,11 @@ PROPS["C03"] = {
     "verus_units": [],
     "level": "other",
     "technique": "Kani/CBMC modular contract on the real shutdown drain (DbInner::kill_logs) with the pipeline stage functions replaced by contracts over ghost stage counters",
-    "claim": "Only the clean-shutdown half, and only the drain order: whatever number of accepted commits sits in each stage when the handle is dropped (queued, logged but unflushed, flushed but unapplied; up to 2 each), DbInner::kill_logs runs the stage functions in an order that applies every one of them before data is flushed and logs are reclaimed, and removes log files only after that. That the worker threads have stopped before kill_logs runs, what the stage functions do, and survival of synced records across a crash are not decided.",
+    "claim": "Only the clean-shutdown half, and only the drain order: whatever number of accepted commits sits in each stage when the handle is dropped (queued, logged but unflushed, flushed but unapplied; up to 2 each), DbInner::kill_logs runs the stage functions in an order that applies every one of them before data is flushed and logs are reclaimed, and removes log files only after that. That Db::drop_inner signals shutdown and joins every worker thread it holds before it calls kill_logs, and releases the directory lock only afterwards, is a text dominance check on the straight-line body of that function (an assumption that is checked, not a proof; that a joined thread touches nothing afterwards is Rust's own guarantee). What the stage functions do beyond the units named below, and survival of synced records across a crash, are not decided.",
     "level_note": "process_commits / flush_logs / enact_logs / clean_all_logs / Log::kill_logs are contracts over ghost counters (stated in the evidence). Thread joins in Db::drop_inner, the background-error path (only reclaims logs) and crash recovery are not covered.",
     "trusted_base": TB,
     "explanation": "Bounded modular harness on a real DbInner value; level 'other' because the stage functions are assumed contracts and crash survival is out of reach.",
-    "does_not_cover": ["thread shutdown / joins before kill_logs", "the stage functions themselves (process_commits, flush_logs, enact_logs)", "crash survival of synced records", "reopen replay (C13 covers the sequence gate only)"],
+    "does_not_cover": ["that the workers react to the shutdown flag (termination of the joins)", "the stage functions themselves (process_commits, flush_logs, enact_logs)", "crash survival of synced records", "reopen replay (C13 covers the sequence gate only)"],
 }
 PROPS["C12"].update({
     "technique": "Kani/CBMC modular ordering contracts on the real log hand-over step (Log::flush_one) and log-reclaim step (DbInner::clean_logs / clean_all_logs) with the I/O callees replaced by recorders",
@@ -1253,3 +1253,6 @@ PROPS["C14"]["claim"] = PROPS["C14"]["claim"] + " A batch that makes a btree los
 for _n in (33, 40):
     M_COLUMN.harnesses.append(H("u49_hash_key_hashes_whole_key_len%d" % _n, "U49", kind="bounded", tiers=("quick", "thorough") if _n == 33 else ("thorough",), shape="hash_key on a uniform column (current version), key of %d arbitrary bytes: what is handed to SipHash" % _n, bound="key lengths 33, 40; SipHasher13::write by recorder"))
 PROPS["C01"]["claim"] = PROPS["C01"]["claim"] + " The current uniform-key format feeds the whole key to the keyed hash, in order (Kani, bounded lengths 33 / 40; SipHasher13::write by recorder): keys that agree on their first 32 bytes are not forced onto one internal key."
+
+# ---- C03: Db::drop_inner joins every worker before the drain (text dominance, reported as an assumption that is checked)
+PROPS["C03"]["syntactic"] = list(PROPS["C03"].get("syntactic", [])) + ["drop_joins_workers_before_kill_logs"]
